@@ -38,7 +38,10 @@ RULE = (
     "1..len+1), every pair of such lists of length <= 2 / <= 3 through the dyadic laws, every ragged "
     "matrix obtained by cutting such a list of length <= 3 / <= 4 into rows (plus one empty row) through "
     "the matrix laws; random part: integer, rational, string-item, nested, mixed and ragged lists and "
-    "strings to length 12 (permutations <= 6, powerset <= 10 items). distinct_nontrivial counts distinct "
+    "strings to length 12 (permutations <= 6, powerset <= 10 items; strings over letters, blank, tab, line feed and "
+    "regex metacharacters); composed laws `P Q` (P in sort, reverse, uniquify, cumulative sums, deltas; Q any "
+    "monadic / item / size law) on flat numeric lists (exhaustive to length 3, and the random ones): Q's definition "
+    "applied to P's definition, so whatever P hands on (lazy, flagged, shared) is held to Q's law. distinct_nontrivial counts distinct "
     "argument tuples whose list has length >= 2 (exhaustive units are disjoint by construction and are "
     "counted; random tuples outside the exhaustive space are hashed)."
 )
@@ -411,12 +414,41 @@ LAWS = [
 ]
 LAW = {row[0]: row for row in LAWS}
 
+# laws on the result of another structural element (what the first one hands on may be lazy, flagged,
+# shared ...): `P Q` on a flat numeric list must be Q's definition applied to P's definition
+PRE = ["sort", "reverse", "uniquify", "cumsum", "deltas"]
+
+
+def _composed(pre, post):
+    _, pprog, _, _, prhs = LAW[pre]
+    _, qprog, qar, qdom, qrhs = LAW[post]
+
+    def rhs(a, *ex):
+        first = prhs(a)
+        if first[0] != "eq" or len(first[1]) != 1 or not isinstance(first[1][0], list):
+            return SKIP("first stage has no single list result")
+        return qrhs(py(first[1][0]), *ex)
+
+    prog = pprog + " " + qprog if qar == 1 else "$" + pprog + "$ " + qprog
+    return (pre + ">" + post, prog, qar, qdom, rhs)
+
+
+COMPOSED = []
+for _p in PRE:
+    for _q, _prog, _ar, _dom, _rhs in LAWS:
+        _cats, _extra = DOMAINS[_dom]
+        if "int" in _cats and _extra in (None, "size", "item") and _ar in (1, 2) and len(_prog) <= 2:
+            COMPOSED.append(_composed(_p, _q))
+for _row in COMPOSED:
+    LAW[_row[0]] = _row
+
 # measured on the unchanged tree (seed 0): least-evaluated law (deltas) 7 179 quick / 53 385 thorough;
 # variants plain 215 047 / 2 033 613, lazy 201 403 / 1 889 528, sym 135 179 / 1 174 160. Minimum = measured / 5.
 MIN_COUNTERS = {f"law:{name}": {"quick": 1400, "thorough": 10000} for name, *_ in LAWS}
 MIN_COUNTERS["variant:lazy"] = {"quick": 40000, "thorough": 370000}
 MIN_COUNTERS["variant:plain"] = {"quick": 40000, "thorough": 400000}
 MIN_COUNTERS["variant:sym"] = {"quick": 27000, "thorough": 230000}
+MIN_COUNTERS["composed_law_instances"] = {"quick": 50000, "thorough": 50000}
 
 # ---------------------------------------------------------------------------
 # workload
@@ -462,7 +494,7 @@ def setup_worker():
 
 
 WORDS = ["", "a", "b", "ab", "ba", "abc", "Hello", "a b", "zz top", "A", "xyz", "aba", "é", "x"]
-CHARS = "abcxyz AB"
+CHARS = "abcxyz AB\n\t.*\\(["
 
 
 def _rint(r):
@@ -690,7 +722,7 @@ def run_case(acc, name, args, variant):
     observed = None
     err = None
     try:
-        with watchdog(CASE_SECONDS):
+        with watchdog(CASE_SECONDS if ">" not in name else 5):
             stack = [values.from_spec(s) for s in specs]
             if variant == "sym":
                 stack = [_sympy_ints(v) for v in stack]
@@ -710,6 +742,9 @@ def run_case(acc, name, args, variant):
                         err = f"reading the result: {type(e).__name__}: {e}"[:300]
     except Watchdog:
         acc.res["inconclusive"].append({"why": "watchdog", "unit": case})
+        acc.dogs = getattr(acc, "dogs", 0) + 1
+        if acc.dogs >= 4:
+            raise _AbortUnit()
         return False
     except (RecursionError, MemoryError) as e:
         acc.res["inconclusive"].append({"why": type(e).__name__, "unit": case})
@@ -731,8 +766,15 @@ def run_case(acc, name, args, variant):
             acc.res["samples"].append({"law": name, "program": prog, "args": list(args), "variant": variant,
                                        "observed": observed if len(_key(observed)) < 300 else "(long)"})
         return True
-    mech = f"{name}:{kind}{qualifier(name, args, expect, observed)}"
-    if mech in NOT_DEMANDED:
+    base, qargs = name, args
+    if ">" in name:
+        # a composed law differs the way its second stage differs, on what the first stage's definition gives
+        pre, base = name.split(">", 1)
+        mid = py(LAW[pre][4](py(args[0]))[1][0])
+        qargs = [mid] + list(args[1:])
+    qual = qualifier(base, qargs, expect, observed)
+    mech = f"{name}:{kind}{qual}"
+    if f"{base}:{kind}{qual}" in NOT_DEMANDED:
         # behaviour the property statement / documentation does not determine: counted, never a verdict
         acc.res["evals"] -= 1
         acc.skip("not-demanded:" + mech)
@@ -794,6 +836,16 @@ def run_list(acc, a, cat, r, exhaustive, only=None):
             for v in variants_for(a, cat):
                 run_case(acc, name, list(args), v)
             tuples.add(_key(list(args)))
+    if cat in ("int", "num") and only is None and (not exhaustive or len(a) <= 3):
+        for name, _prog, _arity, dom, _rhs in COMPOSED:
+            cats, extra = DOMAINS[dom]
+            if cat not in cats:
+                continue
+            exs = extras(extra, a, cat, r, exhaustive)
+            for ex in exs:
+                for v in ("plain", "lazy"):
+                    if run_case(acc, name, [a] + list(ex), v):
+                        acc.count("composed_law_instances")
     return tuples
 
 
@@ -824,10 +876,22 @@ def in_exhaustive_space(args, exlen):
             and all(isinstance(x, int) for x in args[1:]))
 
 
+class _AbortUnit(Exception):
+    """too many cases of one unit ran into the watchdog: the rest of the unit is left out (inconclusive)"""
+
+
 def run_unit(unit):
+    acc = Acc()
+    try:
+        return _run_unit(unit, acc)
+    except _AbortUnit:
+        acc.res["inconclusive"].append({"why": "unit stopped after 4 watchdogs", "unit": unit})
+        return acc.res
+
+
+def _run_unit(unit, acc):
     from lib import harness
 
-    acc = Acc()
     res = acc.res
     k = unit["kind"]
     if k == "case":
@@ -874,6 +938,7 @@ def run_unit(unit):
             ("int", []), ("int", [0]), ("int", [5]), ("num", [{"q": [1, 2]}]), ("num", [{"q": [-3, 2]}, 1]),
             ("strs", [""]), ("strs", ["ba"]), ("strs", ["a", "b"]), ("strs", ["ab", "", "c"]),
             ("str", ""), ("str", "a"), ("str", "ab"), ("str", "aab"), ("str", "abcabc"),
+            ("str", "a\n\nb"), ("str", "\n"), ("str", "a.b*"), ("str", "\t\t \\"), ("strs", ["\n", "a\nb"]),
             ("nest", [[]]), ("nest", [[], [[]]]), ("nest", [[1], 2]), ("rows", [[]]), ("rows", [[], []]),
             ("rows", [[1]]), ("mixed", ["a", 1]), ("mixed", [[1], "a", 1]),
         ]
